@@ -40,9 +40,9 @@ type ptypeDef struct {
 }
 
 type endp struct {
-	kind  byte   // 'S' or 'P'
-	name  string // stream name or processor key
-	extra string // stream: start|end ; processor: condition
+	kind  byte   // 'S' (stream), 'P' (processor) or 'F' (flow reference)
+	name  string // stream name, processor key or flow name
+	extra string // stream/flow: start|end ; processor: condition
 }
 
 type connDef struct{ from, to endp }
@@ -197,6 +197,9 @@ func ptypeYAML(p ptypeDef) string {
 }
 
 func endpYAML(e endp, indent string) string {
+	if e.kind == 'F' {
+		return fmt.Sprintf("%sflow:\n%s  name: %s\n%s  at: %s\n", indent, indent, e.name, indent, e.extra)
+	}
 	if e.kind == 'S' {
 		return fmt.Sprintf("%sstream:\n%s  name: %s\n%s  at: %s\n", indent, indent, e.name, indent, e.extra)
 	}
@@ -408,8 +411,14 @@ func (e *engine) dump(c *caseCfg) string {
 		f := e.byName[fname]
 		var keys []string
 		if fd := c.flow(fname); fd != nil {
-			for _, p := range fd.procs {
-				keys = append(keys, p[0])
+			seen := map[string]bool{}
+			for _, g := range c.flows { // a flow with references also holds nodes of the referenced flows
+				for _, p := range g.procs {
+					if !seen[p[0]] {
+						seen[p[0]] = true
+						keys = append(keys, p[0])
+					}
+				}
 			}
 		} else {
 			for _, q := range c.quotas {
@@ -430,7 +439,11 @@ func (e *engine) dump(c *caseCfg) string {
 				if err != nil || isNil(n) {
 					continue
 				}
-				b.WriteString(proto.Enc(k) + "[")
+				b.WriteString(proto.Enc(k))
+				if n.GetFlowGraphName() != fname {
+					b.WriteString("@" + proto.Enc(n.GetFlowGraphName())) // node created for another (referenced) flow
+				}
+				b.WriteString("[")
 				for i, ed := range n.GetEdges() {
 					if i > 0 {
 						b.WriteString(",")
@@ -453,9 +466,75 @@ func (e *engine) dump(c *caseCfg) string {
 	return strings.Join(words, " ")
 }
 
+// anyCycle: some built direction of some selected flow contains a processor cycle (conditions ignored).
+// Such configurations are never executed by this harness (C05: F05a).
+func (e *engine) anyCycle(c *caseCfg) bool {
+	var allKeys []string
+	seen := map[string]bool{}
+	for _, g := range c.flows {
+		for _, p := range g.procs {
+			if !seen[p[0]] {
+				seen[p[0]] = true
+				allKeys = append(allKeys, p[0])
+			}
+		}
+	}
+	for _, q := range c.quotas {
+		id := strings.ReplaceAll(q.id, ".", "")
+		allKeys = append(allKeys, id+"_QuotaProcessorInc", id+"_QuotaProcessorDec")
+	}
+	for _, f := range e.byName {
+		for _, d := range []publictypes.StreamType{publictypes.StreamTypeRequest, publictypes.StreamTypeResponse} {
+			fdir := f.GetDirection(d)
+			adj := map[string][]string{}
+			for _, k := range allKeys {
+				n, err := fdir.GetNode(k)
+				if err != nil || isNil(n) {
+					continue
+				}
+				for _, ed := range n.GetEdges() {
+					if ed.IsNodeAvailable() {
+						adj[k] = append(adj[k], ed.GetTargetNode().GetProcessorKey())
+					}
+				}
+			}
+			state := map[string]int{}
+			var visit func(n string) bool
+			visit = func(n string) bool {
+				switch state[n] {
+				case 1:
+					return true
+				case 2:
+					return false
+				}
+				state[n] = 1
+				for _, t := range adj[n] {
+					if visit(t) {
+						return true
+					}
+				}
+				state[n] = 2
+				return false
+			}
+			for n := range adj {
+				if visit(n) {
+					return true
+				}
+			}
+		}
+	}
+	return false
+}
+
 func classifyLoadErr(err error) string {
 	m := err.Error()
 	switch {
+	case strings.Contains(m, "foreign root node not found"):
+		return "foreignroot"
+	case strings.Contains(m, "root node not found for flow"):
+		return "rootmissing"
+	case strings.Contains(m, "failed to incorporate flow") && strings.Contains(m, "not found"):
+		return "flowref"
 	case strings.Contains(m, "invalid condition"):
 		return "condition"
 	case strings.Contains(m, "failed to build node"):
